@@ -18,6 +18,12 @@
 //!     as it can confirm, block after block, until every timelock of the run has expired; what a mined
 //!     transaction shows (commitment of which channel with which output values; HTLC output of which
 //!     payment hash spent with / without the preimage) is recorded as `chain` events
+//!   * per-part onion fields (`tlvs`: custom TLVs, `meta`: payment_metadata of the registration, none or a
+//!     foreign one), an intercepting last forwarding node that really skims a fee off a part
+//!     (`skim`: `forward_intercepted_htlc` with a reduced amount), the `skimmed_fee_msat` TLV of the
+//!     update_add_htlc handed to the recipient set to a chosen value in flight (`skim_tlv`; the TLV is not
+//!     covered by the commitment signatures), channels with `accept_underpaying_htlcs` (cfg `underpay`),
+//!     `claim_funds_with_known_custom_tlvs` (`known`)
 //! It only drives the real code and records what a user / the wire can observe (NDJSON).
 //!
 //! usage: paynet --scripts FILE --out TRACE [--seed S]
@@ -121,6 +127,27 @@ struct Reg {
 	hash: PaymentHash,
 	preimage: PaymentPreimage,
 	secret: Option<PaymentSecret>,
+	/// the (encrypted) payment_metadata the registration returned
+	meta: Option<Vec<u8>>,
+}
+
+/// What the last forwarding node of a part does: it intercepts the HTLC and forwards `onion_amt - skim`
+/// over channel `chan`; the `skimmed_fee_msat` of that update_add_htlc is replaced by `tlv` if given.
+struct Skim {
+	hash: PaymentHash,
+	onion_amt: u64,
+	skim: u64,
+	chan: usize,
+	dst: usize,
+	tlv: Option<Option<u64>>,
+	forwarded: bool,
+}
+
+fn tlv_bytes(v: u64) -> Vec<u8> { (v as u32).to_be_bytes().to_vec() }
+fn tlv_val(b: &[u8]) -> i64 { if b.len() == 4 { u32::from_be_bytes([b[0], b[1], b[2], b[3]]) as i64 } else { -1 } }
+fn meta_bytes(n: u64) -> Vec<u8> { let mut v = vec![0x4d, 0x45, 0x54, 0x41]; v.extend_from_slice(&(n as u32).to_be_bytes()); v }
+fn meta_val(b: &Option<Vec<u8>>) -> i64 {
+	match b { None => 0, Some(b) if b.len() == 8 && b[..4] == [0x4d, 0x45, 0x54, 0x41] => u32::from_be_bytes([b[4], b[5], b[6], b[7]]) as i64, Some(_) => -1 }
 }
 
 struct Chan {
@@ -180,6 +207,8 @@ struct Net {
 	/// the chain has settled and nothing was done since
 	settled: bool,
 	mined_any: bool,
+	/// plans of the intercepting nodes / in-flight `skimmed_fee_msat` values
+	skims: Vec<Skim>,
 }
 
 fn is_resolution(k: &str) -> bool {
@@ -238,20 +267,31 @@ impl Net {
 
 	fn describe(&mut self, w: &Wire) -> Option<Value> {
 		match w {
-			Wire::Add(m) => { if m.cltv_expiry > self.max_cltv { self.max_cltv = m.cltv_expiry; } Some(json!({"kind":"update_add_htlc","chan":self.chan(&m.channel_id),"id":m.htlc_id,"amt":m.amount_msat,"hash":self.hash(&m.payment_hash.0),"cltv":m.cltv_expiry})) },
+			Wire::Add(m) => { if m.cltv_expiry > self.max_cltv { self.max_cltv = m.cltv_expiry; } Some(json!({"kind":"update_add_htlc","chan":self.chan(&m.channel_id),"id":m.htlc_id,"amt":m.amount_msat,"hash":self.hash(&m.payment_hash.0),"cltv":m.cltv_expiry,"skim":m.skimmed_fee_msat.unwrap_or(0)})) },
 			Wire::Fulfill(m) => {
 				let h = bitcoin::hashes::sha256::Hash::hash(&m.payment_preimage.0).to_byte_array();
-				Some(json!({"kind":"update_fulfill_htlc","chan":self.chan(&m.channel_id),"id":m.htlc_id,"amt":0,"hash":self.hash(&h),"cltv":0}))
+				Some(json!({"kind":"update_fulfill_htlc","chan":self.chan(&m.channel_id),"id":m.htlc_id,"amt":0,"hash":self.hash(&h),"cltv":0,"skim":0}))
 			},
-			Wire::Fail(m) => Some(json!({"kind":"update_fail_htlc","chan":self.chan(&m.channel_id),"id":m.htlc_id,"amt":0,"hash":0,"cltv":0})),
-			Wire::Malformed(m) => Some(json!({"kind":"update_fail_htlc","chan":self.chan(&m.channel_id),"id":m.htlc_id,"amt":0,"hash":0,"cltv":0})),
-			Wire::Error(m) => Some(json!({"kind":"error","chan":self.chan(&m.channel_id),"id":0,"amt":0,"hash":0,"cltv":0,"data":m.data})),
+			Wire::Fail(m) => Some(json!({"kind":"update_fail_htlc","chan":self.chan(&m.channel_id),"id":m.htlc_id,"amt":0,"hash":0,"cltv":0,"skim":0})),
+			Wire::Malformed(m) => Some(json!({"kind":"update_fail_htlc","chan":self.chan(&m.channel_id),"id":m.htlc_id,"amt":0,"hash":0,"cltv":0,"skim":0})),
+			Wire::Error(m) => Some(json!({"kind":"error","chan":self.chan(&m.channel_id),"id":0,"amt":0,"hash":0,"cltv":0,"skim":0,"data":m.data})),
 			_ => None,
 		}
 	}
 
 	fn enqueue(&mut self, from: usize, to_pk: &PublicKey, w: Wire) {
 		let to = self.idx_of(to_pk);
+		// the previous hop of a final HTLC reports the skimmed fee the script chose (every transmission alike)
+		let w = match w {
+			Wire::Add(mut m) => {
+				let c = self.chan(&m.channel_id);
+				if let Some(p) = self.skims.iter().find(|p| p.tlv.is_some() && p.dst == to && p.chan == c && p.hash == m.payment_hash && p.onion_amt - p.skim == m.amount_msat) {
+					m.skimmed_fee_msat = p.tlv.unwrap();
+				}
+				Wire::Add(m)
+			},
+			w => w,
+		};
 		if let Some(mut d) = self.describe(&w) {
 			d["ev"] = json!("msg");
 			d["from"] = json!(from);
@@ -471,17 +511,39 @@ impl Net {
 
 	fn log_event(&mut self, i: usize, e: Event) {
 		match e {
-			Event::PaymentClaimable { payment_hash, amount_msat, claim_deadline, purpose, receiving_channel_ids, onion_fields, .. } => {
+			Event::HTLCIntercepted { intercept_id, payment_hash, expected_outbound_amount_msat, inbound_amount_msat, .. } => {
+				let h = self.hash(&payment_hash.0);
+				// the node's user forwards it as the script planned: over the real channel, less the skimmed fee
+				let plan = self.skims.iter().position(|p| !p.forwarded && p.hash == payment_hash && p.onion_amt == expected_outbound_amount_msat
+					&& (self.chans[p.chan - 1].a == i || self.chans[p.chan - 1].b == i));
+				let mut res = "noplan";
+				let mut fwd = 0;
+				if let Some(k) = plan {
+					self.skims[k].forwarded = true;
+					let (cid, dst, amt) = (self.chans[self.skims[k].chan - 1].cid, self.skims[k].dst, expected_outbound_amount_msat - self.skims[k].skim);
+					let dst_pk = self.nodes[dst].node.get_our_node_id();
+					fwd = amt;
+					res = match self.nodes[i].node.forward_intercepted_htlc(intercept_id, &cid, dst_pk, amt) { Ok(()) => "ok", Err(_) => "err" };
+					if res == "err" { let _ = self.nodes[i].node.fail_intercepted_htlc(intercept_id); }
+				} else {
+					let _ = self.nodes[i].node.fail_intercepted_htlc(intercept_id);
+				}
+				self.ev(json!({"ev":"event","node":i,"kind":"HTLCIntercepted","hash":h,"inbound":inbound_amount_msat,"expected":expected_outbound_amount_msat,"forwarded":fwd,"res":res}));
+			},
+			Event::PaymentClaimable { payment_hash, amount_msat, counterparty_skimmed_fee_msat, claim_deadline, purpose, receiving_channel_ids, onion_fields, .. } => {
 				let h = self.hash(&payment_hash.0);
 				let via: Vec<usize> = receiving_channel_ids.iter().map(|(c, _)| self.chan(c)).collect();
 				let spont = matches!(purpose, PaymentPurpose::SpontaneousPayment(_));
-				let total = onion_fields.map(|f| f.total_mpp_amount_msat as i64).unwrap_or(-1);
+				let total = onion_fields.as_ref().map(|f| f.total_mpp_amount_msat as i64).unwrap_or(-1);
+				let tlvs: Vec<Value> = onion_fields.as_ref().map(|f| f.custom_tlvs().iter().map(|(t, v)| json!([t, tlv_val(v)])).collect()).unwrap_or_default();
+				let meta = onion_fields.as_ref().map(|f| meta_val(&f.payment_metadata)).unwrap_or(0);
 				if !self.claimable_seen.contains(&(i, h)) { self.claimable_seen.push((i, h)); }
 				if let Some(d) = claim_deadline { self.deadlines.insert((i, h), d); }
 				let held = self.inbound_of_hash(i, &payment_hash);
 				self.shown_htlcs.insert((i, h), held);
 				self.ev(json!({"ev":"event","node":i,"kind":"PaymentClaimable","hash":h,"amt":amount_msat,
-					"deadline":claim_deadline.map(|d| d as i64).unwrap_or(-1),"via":via,"spont":spont,"total":total,"height":self.height()}));
+					"deadline":claim_deadline.map(|d| d as i64).unwrap_or(-1),"via":via,"spont":spont,"total":total,"height":self.height(),
+					"skimmed":counterparty_skimmed_fee_msat,"tlvs":tlvs,"meta":meta}));
 			},
 			Event::PaymentClaimed { payment_hash, amount_msat, htlcs, .. } => {
 				let h = self.hash(&payment_hash.0);
@@ -671,7 +733,7 @@ impl Net {
 		out
 	}
 
-	fn build_route(&self, from: usize, paths: &[Value], amts: &[u64], cltvs: &[u32], fee_over: &Value, total: u64) -> Option<(Route, usize, Vec<Value>)> {
+	fn build_route(&self, from: usize, paths: &[Value], amts: &[u64], cltvs: &[u32], fee_over: &Value, total: u64, skims: &[Option<u64>]) -> Option<(Route, usize, Vec<Value>)> {
 		let mut rpaths = Vec::new();
 		let mut dst = from;
 		let mut parts = Vec::new();
@@ -695,10 +757,15 @@ impl Net {
 					(f, cfg.channel_config.cltv_expiry_delta as u32)
 				};
 				if !last { fees += fee; }
+				// a part whose last forwarding node intercepts it is addressed to an intercept scid of that node
+				let scid = if last && skims[k].is_some() {
+					if n < 2 { return None; }
+					self.nodes[cur].node.get_intercept_scid()
+				} else { ch.scid };
 				hops.push(RouteHop {
 					pubkey: self.nodes[nxt].node.get_our_node_id(),
 					node_features: NodeFeatures::from_le_bytes(self.nodes[nxt].node.node_features().le_flags().to_vec()),
-					short_channel_id: ch.scid,
+					short_channel_id: scid,
 					channel_features: ChannelFeatures::empty(),
 					fee_msat: fee,
 					cltv_expiry_delta: delta,
@@ -707,7 +774,9 @@ impl Net {
 				cur = nxt;
 			}
 			dst = cur;
-			parts.push(json!({"path": cl, "amt": amts[k], "fee": fees, "cltv": self.height() + 1 + cltvs[k]}));
+			let sk = skims[k].unwrap_or(0);
+			if sk >= amts[k] { return None; }
+			parts.push(json!({"path": cl, "amt": amts[k] - sk, "oamt": amts[k], "fee": fees, "cltv": self.height() + 1 + cltvs[k]}));
 			rpaths.push(Path { hops, blinded_tail: None });
 		}
 		let mut rp = RouteParameters::from_payment_params_and_value(
@@ -752,7 +821,7 @@ impl Net {
 			let r = match &res { Ok(()) => "ok", Err(RetryableSendFailure::DuplicatePayment) => "dup", Err(_) => "err" };
 			if res.is_ok() { if self.accepted_ids.contains(&id) { self.id_reused = true; } else { self.accepted_ids.push(id); } }
 			let rec = json!({"ev":"send","node":from,"pid":id,"hash":h,"dst":to,"auto":true,"keysend":keysend,"amt":amt,"total":amt,
-				"sreg": sreg, "parts": [{"path": [], "amt": amt, "fee": 0, "cltv": 0}], "res": r, "height": self.height()});
+				"sreg": sreg, "parts": [{"path": [], "amt": amt, "oamt": amt, "fee": 0, "cltv": 0}], "res": r, "height": self.height(), "tlvs": [], "meta": 0});
 			self.log.lock().unwrap().insert(mark, rec);
 			self.drain();
 			return true;
@@ -767,10 +836,22 @@ impl Net {
 		if cltvs.len() != paths.len() { return false; }
 		let sum: u64 = amts.iter().sum();
 		let total = op["total"].as_u64().unwrap_or(sum);
-		let (route, dst, parts) = match self.build_route(from, &paths, &amts, &cltvs, &op["fee_over"], total) { Some(x) => x, None => return false };
+		// per path: the fee the last forwarding node skims off (it intercepts the HTLC), and the skimmed_fee_msat
+		// it reports (null / absent: what it really skimmed, -1: no TLV, x: x)
+		let skims: Vec<Option<u64>> = match op["skim"].as_array() {
+			Some(a) if a.len() == paths.len() => a.iter().map(|x| x.as_u64()).collect(),
+			Some(_) => return false,
+			None => vec![None; paths.len()],
+		};
+		let skim_tlvs: Vec<Option<Option<u64>>> = match op["skim_tlv"].as_array() {
+			Some(a) if a.len() == paths.len() => a.iter().map(|x| match x.as_i64() { None => None, Some(v) if v < 0 => Some(None), Some(v) => Some(Some(v as u64)) }).collect(),
+			Some(_) => return false,
+			None => vec![None; paths.len()],
+		};
+		let (route, dst, parts) = match self.build_route(from, &paths, &amts, &cltvs, &op["fee_over"], total, &skims) { Some(x) => x, None => return false };
 		// which secret: the unmodified secret of registration `sreg`, or a corrupted / absent one
 		let mut sreg = 0u64;
-		let onion = match &op["secret"] {
+		let mut onion = match &op["secret"] {
 			Value::String(s) if s == "none" => RecipientOnionFields::spontaneous_empty(total),
 			v => {
 				let r = v["reg"].as_u64().unwrap_or(op["reg"].as_u64().unwrap_or(0));
@@ -784,12 +865,38 @@ impl Net {
 				RecipientOnionFields::secret_only(secret, total)
 			},
 		};
+		// payment_metadata: the one the registration returned ("ok", the default), none, or another one
+		let reg_meta = self.regs.get(&op["secret"]["reg"].as_u64().unwrap_or(op["reg"].as_u64().unwrap_or(0))).and_then(|x| x.meta.clone());
+		let meta_class = match op["meta"].as_str().unwrap_or("ok") {
+			"none" => { onion.payment_metadata = None; 0 },
+			"flip" => {
+				let mut m = reg_meta.clone().unwrap_or_else(|| { let mut v = meta_bytes(9); v.extend_from_slice(&[7u8; 16]); v });
+				let bit = (self.seed as usize) % (m.len() * 8);
+				m[bit / 8] ^= 1 << (bit % 8);
+				onion.payment_metadata = Some(m);
+				2
+			},
+			_ => { onion.payment_metadata = reg_meta.clone(); if reg_meta.is_some() { 1 } else { 0 } },
+		};
+		// custom TLVs [[type, value]]
+		let mut tlv_log: Vec<Value> = Vec::new();
+		if let Some(a) = op["tlvs"].as_array() {
+			let mut v: Vec<(u64, Vec<u8>)> = Vec::new();
+			for x in a { match (x[0].as_u64(), x[1].as_u64()) { (Some(t), Some(val)) => { v.push((t, tlv_bytes(val))); tlv_log.push(json!([t, val])); }, _ => return false } }
+			match lightning::ln::outbound_payment::RecipientCustomTlvs::new(v) { Ok(c) => { onion = onion.with_custom_tlvs(c); }, Err(()) => return false }
+		}
+		for (k, p) in paths.iter().enumerate() {
+			if skims[k].is_some() || skim_tlvs[k].is_some() {
+				let last = p.as_array().and_then(|a| a.last()).and_then(|c| c.as_u64()).unwrap_or(0) as usize;
+				self.skims.push(Skim { hash, onion_amt: amts[k], skim: skims[k].unwrap_or(0), chan: last, dst, tlv: skim_tlvs[k], forwarded: skims[k].is_none() });
+			}
+		}
 		let mark = self.log.lock().unwrap().len();
 		let res = self.nodes[from].node.send_payment_with_route(route, hash, onion, pid);
 		let r = match &res { Ok(()) => "ok", Err(RetryableSendFailure::DuplicatePayment) => "dup", Err(_) => "err" };
 		if res.is_ok() { if self.accepted_ids.contains(&id) { self.id_reused = true; } else { self.accepted_ids.push(id); } }
 		let rec = json!({"ev":"send","node":from,"pid":id,"hash":h,"dst":dst,"auto":false,"keysend":false,"amt":sum,"total":total,
-			"sreg": sreg, "parts": parts, "res": r, "height": self.height()});
+			"sreg": sreg, "parts": parts, "res": r, "height": self.height(), "tlvs": tlv_log, "meta": meta_class});
 		self.log.lock().unwrap().insert(mark, rec);
 		self.drain();
 		true
@@ -802,9 +909,14 @@ impl Net {
 		let exp = op["expiry"].as_u64().unwrap_or(7200) as u32;
 		let minc = op["min_cltv"].as_u64().map(|x| x as u16);
 		if node >= self.nodes.len() { return false; }
-		let (hash, preimage, secret) = if op["method"].as_str() == Some("ldk") {
-			match self.nodes[node].node.create_inbound_payment(amt, exp, minc, None) {
-				Ok((h, s, _)) => match self.nodes[node].node.get_payment_preimage_decrypt_metadata(h, s, None) { Ok(p) => (h, p, s), Err(_) => return false },
+		let meta_n = op["meta"].as_u64().unwrap_or(0);
+		let meta_in = if meta_n > 0 { Some(meta_bytes(meta_n)) } else { None };
+		let (hash, preimage, secret, meta) = if op["method"].as_str() == Some("ldk") {
+			match self.nodes[node].node.create_inbound_payment(amt, exp, minc, meta_in) {
+				Ok((h, s, m)) => {
+					let mut mc = m.clone();
+					match self.nodes[node].node.get_payment_preimage_decrypt_metadata(h, s, mc.as_mut().map(|x| &mut x[..])) { Ok(p) => (h, p, s, m), Err(_) => return false }
+				},
 				Err(_) => return false,
 			}
 		} else {
@@ -818,15 +930,15 @@ impl Net {
 				pre[31] = 0x5a;
 				(PaymentHash(bitcoin::hashes::sha256::Hash::hash(&pre).to_byte_array()), PaymentPreimage(pre))
 			};
-			match self.nodes[node].node.create_inbound_payment_for_hash(hash, amt, exp, minc, None) {
-				Ok((s, _)) => (hash, pre, s),
+			match self.nodes[node].node.create_inbound_payment_for_hash(hash, amt, exp, minc, meta_in) {
+				Ok((s, m)) => (hash, pre, s, m),
 				Err(_) => return false,
 			}
 		};
 		let h = self.hash(&hash.0);
 		self.ev(json!({"ev":"reg","node":node,"reg":r,"hash":h,"amt":amt.unwrap_or(0),"min_cltv":minc.unwrap_or(0),
-			"expiry": (self.time - self.time0) as u64 + exp as u64, "ldk": op["method"].as_str() == Some("ldk")}));
-		self.regs.insert(r, Reg { node, hash, preimage, secret: Some(secret) });
+			"expiry": (self.time - self.time0) as u64 + exp as u64, "ldk": op["method"].as_str() == Some("ldk"), "meta": meta_n}));
+		self.regs.insert(r, Reg { node, hash, preimage, secret: Some(secret), meta });
 		true
 	}
 
@@ -987,8 +1099,10 @@ impl Net {
 					}
 				}
 				if name == "failback" { self.claimable_seen.retain(|x| *x != (dst, h)); }
-				self.ev(json!({"ev":name,"node":dst,"hash":h,"height":self.height()}));
-				if name == "claim" { self.nodes[dst].node.claim_funds(pre); } else { self.nodes[dst].node.fail_htlc_backwards(&hash); }
+				let known = name == "claim" && op["known"].as_bool().unwrap_or(false);
+				self.ev(json!({"ev":name,"node":dst,"hash":h,"height":self.height(),"known":known}));
+				if known { self.nodes[dst].node.claim_funds_with_known_custom_tlvs(pre); }
+				else if name == "claim" { self.nodes[dst].node.claim_funds(pre); } else { self.nodes[dst].node.fail_htlc_backwards(&hash); }
 				self.drain();
 				self.forward(dst);
 				true
@@ -1106,6 +1220,9 @@ fn build_net(run: u64, seed: u64, cfg: &Value, log: &Log) -> Net {
 	uc.channel_handshake_config.announced_channel_max_inbound_htlc_value_in_flight_percentage = 100;
 	uc.channel_config.forwarding_fee_base_msat = 1000;
 	uc.channel_config.forwarding_fee_proportional_millionths = 0;
+	if cfg["intercept"].as_bool().unwrap_or(false) {
+		uc.htlc_interception_flags = lightning::util::config::HTLCInterceptionFlags::ToInterceptSCIDs as u8;
+	}
 	let ucs: Vec<Option<lightning::util::config::UserConfig>> = (0..n).map(|_| Some(uc.clone())).collect();
 	let mgrs = leak(create_node_chanmgrs(n, node_cfgs, &ucs));
 	let nodes = create_network(n, node_cfgs, mgrs);
@@ -1142,6 +1259,15 @@ fn build_net(run: u64, seed: u64, cfg: &Value, log: &Log) -> Net {
 		let h = nd.best_block_info().1;
 		if h < maxh { connect_blocks(nd, maxh - h); }
 	}
+	// channels on which both ends accept HTLCs that bring less than the onion says, if the previous hop
+	// reports the difference as its skimmed fee (ChannelConfig::accept_underpaying_htlcs)
+	let underpay: Vec<usize> = cfg["underpay"].as_array().map(|a| a.iter().filter_map(|x| x.as_u64()).map(|x| x as usize).filter(|c| *c >= 1 && *c <= chans.len()).collect()).unwrap_or_default();
+	for c in underpay.iter() {
+		let ch = &chans[*c - 1];
+		let upd = lightning::util::config::ChannelConfigUpdate { accept_underpaying_htlcs: Some(true), ..Default::default() };
+		nodes[ch.a].node.update_partial_channel_config(&nodes[ch.b].node.get_our_node_id(), &[ch.cid], &upd).unwrap();
+		nodes[ch.b].node.update_partial_channel_config(&nodes[ch.a].node.get_our_node_id(), &[ch.cid], &upd).unwrap();
+	}
 	for i in 0..n {
 		nodes[i].tx_broadcaster.txn_broadcasted.lock().unwrap().clear();
 		nodes[i].tx_broadcaster.txn_types.lock().unwrap().clear();
@@ -1154,13 +1280,13 @@ fn build_net(run: u64, seed: u64, cfg: &Value, log: &Log) -> Net {
 		nodes, cfgs, persisters, queues: HashMap::new(), connected, log: log.clone(), chans, hashes: Vec::new(),
 		regs: HashMap::new(), hold: vec![false; n], saves: vec![None; n], last_recent: vec![json!([]); n], run, seed,
 		time0, time: time0, executed: 0, skipped: 0, restarts: 0, closed_seen: false, claimable_seen: Vec::new(), deadlines: HashMap::new(), shown_htlcs: HashMap::new(), ended: false, accepted_ids: Vec::new(), id_reused: false, sent_since_save: vec![false; n],
-		mempool: Vec::new(), confirmed: HashSet::new(), seen_txids: HashSet::new(), spent: HashSet::new(), funding, commit_chan: HashMap::new(), max_cltv: 0, settled: false, mined_any: false,
+		mempool: Vec::new(), confirmed: HashSet::new(), seen_txids: HashSet::new(), spent: HashSet::new(), funding, commit_chan: HashMap::new(), max_cltv: 0, settled: false, mined_any: false, skims: Vec::new(),
 	};
 	let _ = net.cfgs;
 	let c = lightning::verif::consts();
 	let cd: Vec<Value> = net.chans.iter().enumerate().map(|(i, c)| json!({"chan": i + 1, "a": c.a, "b": c.b})).collect();
 	let bal = net.balances();
-	net.ev(json!({"ev":"open","topo":topo,"nodes":n,"chans":cd,"height":net.height(),"bal":bal,
+	net.ev(json!({"ev":"open","topo":topo,"nodes":n,"chans":cd,"height":net.height(),"bal":bal,"underpay":underpay,
 		"consts":{"fail_back_buffer":c.htlc_fail_back_buffer,"min_final_cltv":c.min_final_cltv_expiry_delta,
 			"mpp_ticks":c.mpp_timeout_ticks,"idem_ticks":c.idempotency_timeout_ticks}}));
 	net
